@@ -213,6 +213,81 @@ def main():
         for L in (list(range(0, 67)) if chk.thorough else [0, 1, 2, 32, 33, 34, 64, 65, 66]):
             tasks.append(('newpub-full', t_newpub_full(L)))
         chk.bounds.append('NewPublicKey (real decoder, full width): lengths %s, all byte contents' % ('0..66' if chk.thorough else '{0,1,2,32,33,34,64,65,66}'))
+
+    # ---- "always": the key-object invariant is an inductive invariant of the API.  One step from an arbitrary valid key pair: every
+    # accessor is called, everything it returns is overwritten by the caller with arbitrary values, every operation that takes a key
+    # as an operand is run, and the invariant (cached encodings = encodings of the point/scalar, point = d*G, point != O) is re-checked.
+    BTC = MOD + '/secec/bitcoin.'
+
+    def t_invariant(toy):
+        def task(sub):
+            def h(ctx):
+                stubs.NARROW['on'] = True
+                m = mk(ctx, toy)
+                stubs.install_hash_stubs(m)
+                stubs.install_crypto_hash(m)
+                d, q = tm.var('d', W), tm.var('q', W)
+                for v in (d, q):
+                    ctx.assume(tm.band(tm.bnot(tm.eq(v, 0, W)), tm.ult(v, toy.n, W)))
+                sk, pk = T.new_private_key(m, d), T.new_public_key(m, q)
+                nmut = [0]
+
+                def clobber_bytes(sl):
+                    if sl.obj is None:
+                        return
+                    for i in range(len(m.slice_elems(sl))):
+                        nmut[0] += 1
+                        m.store(X.Ptr(sl.obj, sl.path + (sl.off + i,)), tm.var('mut%d' % nmut[0], 8))
+
+                def clobber_point(pt):
+                    nmut[0] += 1
+                    m.store(pt, X.Abs('pt', tm.var('mutp%d' % nmut[0], W)))
+
+                def clobber_scalar(sc):
+                    nmut[0] += 1
+                    m.store(X.Ptr(sc.obj, sc.path + (1,)), T.widen_limbs(tm.var('muts%d' % nmut[0], W)))
+
+                def inv(tag):
+                    pub = T.fld(m, sk, T.PRIV_T, 'publicKey')
+                    ctx.check(tm.eq(m.toy_sval(T.fld(m, sk, T.PRIV_T, 'scalar')), d, W), 'bv:%s/private-scalar-still-d' % tag)
+                    for nm, key, val in (('derived-public-key', pub, d), ('public-key', pk, q)):
+                        pt = m.toy_pget(T.fld(m, key, T.PUB_T, 'point'))
+                        ctx.check(tm.eq(pt, val, W), 'bv:%s/%s-point-unchanged' % (tag, nm))
+                        want = [4] + T.be32(toy.X(val)) + T.be32(toy.Y(val))
+                        ctx.check(tm.eq(cat_bytes(m.slice_elems(T.fld(m, key, T.PUB_T, 'pointBytes'))), cat_bytes(want), 520),
+                                  'bv:%s/%s-cached-encoding=encoding-of-the-point' % (tag, nm))
+                        enc = m.slice_elems(m.call(PKM + 'Bytes', [key]))
+                        ctx.check(len(enc) == 65 and tm.eq(cat_bytes(enc), cat_bytes(want), 520), 'bv:%s/%s-Bytes()=encoding-of-the-point' % (tag, nm))
+                    kb = m.slice_elems(m.call(SK + 'Bytes', [sk]))
+                    ctx.check(len(kb) == 32 and tm.eq(cat_bytes(kb), cat_bytes(T.be32(d)), 256), 'bv:%s/PrivateKey.Bytes()=encoding-of-d' % tag)
+                inv('initially')
+                # accessors, each result overwritten by the caller
+                clobber_bytes(m.call(SK + 'Bytes', [sk]))
+                clobber_scalar(m.call(SK + 'Scalar', [sk]))
+                for key in (pk, m.call(SK + 'PublicKey', [sk])):
+                    clobber_bytes(m.call(PKM + 'Bytes', [key]))
+                    clobber_bytes(m.call(PKM + 'CompressedBytes', [key]))
+                    clobber_point(m.call(PKM + 'Point', [key]))
+                inv('after-accessors-and-caller-mutation')
+                # operations that take keys as operands
+                sh, err = m.call(SK + 'ECDH', [sk, pk])
+                if err is None:
+                    clobber_bytes(sh)
+                m.call(PKM + 'Equal', [pk, X.Iface('*' + T.PUB_T, m.call(SK + 'PublicKey', [sk]))])
+                m.call(SK + 'Equal', [sk, X.Iface('*' + T.PRIV_T, sk)])
+                ssk = m.call(BTC + 'NewSchnorrPrivateKeyFromECDSA', [sk])
+                spk = m.call(BTC + 'NewSchnorrPublicKeyFromECDSA', [pk])
+                inv('after-ECDH-Equal-and-Schnorr-key-derivation')
+                sub.note_machine(m)
+                return 'ok'
+            paths = sub.explore('toy(%d,%d)/key-invariant-inductive-step' % (toy.p, toy.n), h, mode='bv')
+            sub.add('toy(%d,%d)/key-invariant-inductive-step/witness' % (toy.p, toy.n), [], any(p.outcome == 'ok' for p in paths))
+        return task
+    if not only or 'inv' in only:
+        tasks.append(('invariant', t_invariant(T.get_toy(*toys[0]))))
+        chk.bounds.append('key-object invariant, one inductive step on toy curve %s from every valid key pair (d, Q): accessors Bytes/Scalar/PublicKey/'
+                          'CompressedBytes/Point with every returned byte, scalar and point overwritten by arbitrary values; ECDH, Equal, '
+                          'NewSchnorrPrivateKeyFromECDSA, NewSchnorrPublicKeyFromECDSA with the keys as operands' % (toys[0],))
     chk.run_tasks(tasks)
     chk.discharge()
     chk.finish()
